@@ -30,6 +30,13 @@ CHECKS = {
             "values of every space must equal derivation from scratch along the harness's own C3. The n<=4 part is exhaustive; "
             "histories are a sample.",
             "trusts the harness C3 (cross-checked against Python's class MRO), accept-follows-real for which edits are accepted; allow_none propagation and member order not asserted"),
+    "C06": ("exploration",
+            "property-based testing (Hypothesis) of value-edit histories against an exact-discard oracle built from the reference interpreter's call trees plus the execution log",
+            "Generated DAG models are warmed up and then edited element by element (assign, overwrite, clear_at, clear, clear_all, "
+            "space/model clear_all, unrelated reference changes) under both recalc settings; after every step the set of held "
+            "elements, their values, the is_input flags and the formulas executed must be exactly what 'discard the edited "
+            "element's transitive dependents and nothing else' predicts. Edits are aimed at held elements that have dependents.",
+            "dependency relation from vf/ref.py + vf/memo.py; recalc-on compares final states only; inputs inside ItemSpaces are not asserted to survive re-creation of the instance"),
 }
 
 NOT_YET = {
